@@ -3,6 +3,8 @@
  * lemma target_exists: for two distinct tokens of one tree, lca(a, b) is a node (never None), it dominates both
    and is a constituent (has children) -- so `target.children.append(child)` in root_attach is safe and the target
    spans both neighbours;
+ * lemma target_not_below_child: that target is neither the moved child nor below it (the left neighbour lies outside
+   the child's yield, by completeness and order of terminals), so re-attaching creates no cycle;
  * the mover step of root_attach as a block contract (shared with C04).
 """
 import z3
@@ -13,7 +15,9 @@ from contracts.mover import lemma_mover
 
 VERIFY = []
 TRUSTED = ["contract of trees.lca (proved under C19) and wf_theory (see C19)"]
-ASSUMPTIONS = ["the two neighbours handed to lca are distinct tokens of the same well-formed tree"]
+ASSUMPTIONS = ["the two neighbours handed to lca are distinct tokens of the same well-formed tree",
+               "target_not_below_child: tokens are numbered 1..n (well-formedness of reader output), so the token the code "
+               "picks as left neighbour is the one numbered one less than the moved child's least token"]
 
 
 def build(reg):
@@ -50,4 +54,35 @@ def lemma_target_exists(reg, repo):
     ]
 
 
-LEMMAS = {"target_exists": lemma_target_exists, "mover.root_attach": lemma_mover("trees.transform.root_attach")}
+def lemma_target_not_below_child(reg, repo):
+    """no cycle: the target of a re-attachment (the lca of the token left of the moved child's leftmost token and a
+    token right of its rightmost token) is not the moved child and does not lie below it.  Over the contracts of
+    terminals (complete, ordered) and lca; the code picks the left neighbour as tree_terms[min(term_ind) - 2], i.e. (tokens
+    being numbered 1..n) the token whose number is one less than the child's least token number."""
+    from contracts.common import terms_facts, T_idx
+    H = Heap.fresh("L")
+    child, a, r = VRef(z3.Int("nc")), VRef(z3.Int("na")), VRef(z3.Int("nr"))
+    an = lambda y, q: H.anc(y, VInt(q)).t
+    dc, dr, da = H.depth(child).t, H.depth(r).t, H.depth(a).t
+    T = H.terms(child)
+    hyp = [tobool(wf_theory(H)), tobool(WF(H, child)), tobool(WF(H, a)), tobool(WF(H, r)), child.t != 0, a.t != 0,
+           r.t != 0, H.nchild_t(a.t) == 0, tobool(terms_facts(H, child)),
+           # a carries a smaller number than the leftmost token of child
+           H.num(a).t < H.num(T.get(0)).t,
+           # what lca guarantees about its result
+           tobool(desc(H, r, a))] + H.typing()
+    outside = z3.Not(tobool(desc(H, child, a)))
+    # ground instance of the proved lemma anc_anc (C19) at (x := a, d := depth r, k := depth child)
+    inst = z3.Implies(z3.And(0 <= dc, dc <= dr, dr <= da), an(VRef(an(a, dr)), dc) == an(a, dc))
+    i = T_idx(H, child, a).t
+    return [
+        # if a were below child it would be one of child's tokens (completeness), hence not left of the leftmost one
+        ("left_neighbour_is_outside_the_child", hyp + [z3.Int("n_ia") == i], outside),
+        ("depths_nonneg", hyp, z3.And(dc >= 0, dr >= 0, da >= 0)),
+        ("target_is_not_at_or_below_the_child", hyp + [outside, inst, dc >= 0, dr >= 0, da >= 0],
+         z3.Not(tobool(desc(H, child, r)))),
+    ]
+
+
+LEMMAS = {"target_exists": lemma_target_exists, "target_not_below_child": lemma_target_not_below_child,
+          "mover.root_attach": lemma_mover("trees.transform.root_attach")}
